@@ -1,6 +1,6 @@
 (* C05 (2): a cancelled key-generation round stays cancelled, whatever arrives. *)
 From Coq Require Import String List NArith ZArith Bool Lia.
-Require Import Fsm.EngineDefs Fsm.Types Fsm.Engine Fsm.EngineFacts Fsm.Actions Fsm.Provider Fsm.TableFacts.
+Require Import Fsm.EngineDefs Fsm.Types Fsm.Engine Fsm.EngineFacts Fsm.Actions Fsm.Provider Fsm.Handover Fsm.TableFacts.
 Require Gen.Tables.
 Import ListNotations.
 Local Open Scope string_scope.
@@ -35,10 +35,12 @@ Proof.
   intros Hin H.
   pose proof cancelled_states_owner as Ho. rewrite forallb_forall in Ho. specialize (Ho s Hin).
   unfold do_on_dump, from_dump in H. cbn [d_state d_payload] in H.
-  destruct (machine_by_state s) as [t|]; [|discriminate].
+  destruct (machine_by_state s) as [t|] eqn:Em; [|discriminate].
   apply andb_prop in Ho as [Ho Htab]. apply andb_prop in Ho as [Ho Hne]. apply andb_prop in Ho as [_ Hcopy].
   apply negb_true_iff in Hne.
-  rewrite Hcopy, Hne in H. unfold inst_do in H. cbn [i_mach i_cur i_payload i_dstate] in H.
+  rewrite Hcopy, Hne in H.
+  rewrite (inst_do_owner _ t) in H by (cbn; first [exact Em|reflexivity]).
+  unfold inst_do_core in H. cbn [i_mach i_cur i_payload i_dstate] in H.
   destruct (table_by_name (ft_name t)) as [t'|]; [|discriminate].
   destruct (fsm_do t' _ s p ev req) as [|cur' rs' rd' err p'|] eqn:Ed;
     [discriminate| |discriminate].
